@@ -192,12 +192,17 @@ package parse
 
 //@ func parse.lexTagOpen
 //@   implements functype:parse.stateFn
+//@   ensures trim: old(l.pos) + 2 < len(l.input) && l.input[old(l.pos) + 2] == '-' ==> l.pos == old(l.pos) + 3
+//@   ensures notrim: !(old(l.pos) + 2 < len(l.input) && l.input[old(l.pos) + 2] == '-') ==> l.pos == old(l.pos) + 2
 
 //@ func parse.lexTagClose
 //@   implements functype:parse.stateFn
 
 //@ func parse.lexPrintOpen
 //@   implements functype:parse.stateFn
+// C14: a '-' right after the opening delimiter is the whitespace-control marker, whatever follows it
+//@   ensures trim: old(l.pos) + 2 < len(l.input) && l.input[old(l.pos) + 2] == '-' ==> l.pos == old(l.pos) + 3
+//@   ensures notrim: !(old(l.pos) + 2 < len(l.input) && l.input[old(l.pos) + 2] == '-') ==> l.pos == old(l.pos) + 2
 
 //@ func parse.lexPrintClose
 //@   implements functype:parse.stateFn
@@ -583,6 +588,10 @@ package parse
 //@   at "t.parseRightTestOperand(nil)" test: op.precedence >= min && (op.op == OpBinaryIs || op.op == OpBinaryIsNot)
 //@   at "t.parseOuterExprPrec(NewBinaryExpr(expr, op.Operator(), right, expr.Start()), min)" cont: op.precedence >= min
 //@   at "t.parseExpr()" loosest: min <= 0
+// postfix forms (attribute access, filters) continue at the same level; the expression inside [ ] starts a new one
+//@   at "t.parseOuterExprPrec(resultExpr, min)" filtercont: true
+//@   at "t.parseOuterExprPrec(NewGetAttrExpr(expr, attr, args, nt.Pos), min)" attrcont: true
+//@   at "t.parseOuterExpr(attr)" subscript: nt.value == "["
 //@   asserts@"?" deferred: min > 0 ==> err == nil && r0 == expr
 //@   asserts@tokenOperator looser: err == nil && istype(r0, "*BinaryExpr") && r0 != expr ==> true
 //@   requires tinv(t) && good(expr)
